@@ -9,7 +9,7 @@
    lo <= hi, at least one grid point, strictly increasing, all inside [lo, hi].
    [nthR i l] is [nth i l 0]. *)
 From Coq Require Import ZArith Reals List Bool.
-From Verif Require Import Base.Num Base.Vec C14.Model C14.Proofs C14.ProofsIndex C14.ProofsUniform C14.ProofsSlice C14.ProofsNd C14.ProofsAxes C14.ProofsFactories C14.ProofsByaxis.
+From Verif Require Import Base.Num Base.Vec C14.Model C14.Proofs C14.ProofsIndex C14.ProofsUniform C14.ProofsSlice C14.ProofsNd C14.ProofsAxes C14.ProofsFactories C14.ProofsByaxis C14.ProofsList.
 Import ListNotations.
 Local Open Scope R_scope.
 
@@ -249,12 +249,12 @@ Theorem getitem_step_cells_refuted :
   exists (ax : axis R), valid ax /\ nthR 1 (bdry_vec (sub_ax ax 0 4 2)) <> nthR 1 (bdry_vec ax).
 Proof. exact stepped_slice_cells_refuted. Qed.
 
-(* integers: every i in [-n, n) becomes the one-cell slice i' : i'+1 (i' = i mod n) under both
-   variants of the bounds test; p[i] is exactly cell i' with its grid point. *)
-Theorem int_index_normalisation : forall (strict its : bool) (i n : Z) (l : list item) (sh : list Z),
+(* integers: every i in [-n, n) becomes the one-cell slice i' : i'+1 (i' = i mod n);
+   p[i] is exactly cell i' with its grid point. *)
+Theorem int_index_normalisation : forall (its : bool) (i n : Z) (l : list item) (sh : list Z),
   (- n <= i < n)%Z ->
-  norm_ints strict its (IInt i :: l) (n :: sh) =
-  bind (norm_ints strict its l sh) (fun r =>
+  norm_ints its (IInt i :: l) (n :: sh) =
+  bind (norm_ints its l sh) (fun r =>
     Ok ((if its then let i' := (if i <? 0 then i + n else i)%Z in ISlice (Some i') (Some (i' + 1)%Z) None
          else IInt i) :: r)).
 Proof. exact norm_int_in_range. Qed.
@@ -267,15 +267,15 @@ Theorem getitem_int_is_that_cell : forall (ax : axis R) (i : Z), valid ax -> (0 
   bdry_vec ax' = [nthR (Z.to_nat i) (bdry_vec ax); nthR (S (Z.to_nat i)) (bdry_vec ax)].
 Proof. exact getitem_axis_int. Qed.
 Print Assumptions getitem_int_is_that_cell.
-(* out-of-range integers: the repaired bounds test (strict = true) rejects all of them;
-   the code at hand (strict = false, measured by the harness) lets i < -n through
-   (finding C14/getitem-int-below-minus-n: p[-5] on 3 cells returns cell 1). *)
-Theorem int_index_out_of_range_rejected_partial : forall (its : bool) (i n : Z) (l : list item) (sh : list Z),
-  (i < - n \/ n <= i)%Z -> (0 <= n)%Z -> norm_ints true its (IInt i :: l) (n :: sh) = IndexErr.
-Proof. exact norm_int_out_of_range_strict. Qed.
-Theorem int_index_below_minus_n_refuted :
-  norm_ints false true [IInt (-5)] [3%Z] = Ok [ISlice (Some (-2)%Z) (Some (-1)%Z) None].
-Proof. exact norm_int_below_minus_n_accepted. Qed.
+(* every integer outside [-n, n) is an IndexError (full statement; it was _refuted for i < -n
+   before /repo commit 2a3c64a, finding C14/getitem-int-below-minus-n, now fixed: p[-5] on 3 cells
+   used to return cell 1). *)
+Theorem int_index_out_of_range_rejected : forall (its : bool) (i n : Z) (l : list item) (sh : list Z),
+  (i < - n \/ n <= i)%Z -> (0 <= n)%Z -> norm_ints its (IInt i :: l) (n :: sh) = IndexErr.
+Proof. exact norm_int_out_of_range. Qed.
+Print Assumptions int_index_out_of_range_rejected.
+Example int_index_minus_5_of_3_rejected : norm_ints true [IInt (-5)] [3%Z] = IndexErr.
+Proof. exact norm_int_below_minus_n_example. Qed.
 
 (* T1. p[p.index(x)] extracts the cell in which x lies. *)
 Theorem index_then_getitem_extracts_the_cell : forall (ax : axis R) (x : R),
@@ -295,15 +295,15 @@ Print Assumptions index_then_getitem_extracts_the_cell.
    in-range integers and slices is -- cuts every axis independently ([sub_item] = the
    per-axis [sub_ax] above); the result is a valid partition.  [empty_slice_check] is the
    code's own test "Slices with empty axes not allowed" (ValueError when it fires). *)
-Theorem getitem_acts_axiswise : forall (strict : bool) (p : list (axis R)) (items : list item),
+Theorem getitem_acts_axiswise : forall (p : list (axis R)) (items : list item),
   Forall valid p -> Forall2 good_item p items ->
   empty_slice_check items (shape_of p) = false ->
-  getitem strict p (ETuple items) = Ok (map2 sub_item p items) /\ Forall valid (map2 sub_item p items).
+  getitem p (ETuple items) = Ok (map2 sub_item p items) /\ Forall valid (map2 sub_item p items).
 Proof. exact getitem_nd_slices. Qed.
 Print Assumptions getitem_acts_axiswise.
-Theorem getitem_empty_axis_is_rejected : forall (strict : bool) (p : list (axis R)) (items : list item),
+Theorem getitem_empty_axis_is_rejected : forall (p : list (axis R)) (items : list item),
   forallb is_slice items = true -> length items = length p ->
-  empty_slice_check items (shape_of p) = true -> getitem strict p (ETuple items) = ValueErr.
+  empty_slice_check items (shape_of p) = true -> getitem p (ETuple items) = ValueErr.
 Proof. exact getitem_nd_empty_axis. Qed.
 
 (* T1. insert / append / squeeze act on the list of axes (any carrier, any number of parts):
@@ -358,23 +358,23 @@ Proof. exact nonuniform_given. Qed.
    - an Ellipsis stands for ndim - (number of other entries) full slices;
    - fewer entries than axes are filled up with full slices from the right;
    - an in-range integer i becomes the one-cell slice i':i'+1 ([to_slice]). *)
-Theorem ellipsis_expands_to_full_slices : forall (strict its : bool) (pre post : list item) (shape : list Z),
+Theorem ellipsis_expands_to_full_slices : forall (its : bool) (pre post : list item) (shape : list Z),
   existsb is_ell pre = false -> existsb is_ell post = false ->
   (length pre + length post <= length shape)%nat ->
-  norm_index strict (ETuple (pre ++ IEll :: post)) shape its =
-  norm_index strict (ETuple (pre ++ repeat full_slice (length shape - length pre - length post) ++ post)) shape its.
+  norm_index (ETuple (pre ++ IEll :: post)) shape its =
+  norm_index (ETuple (pre ++ repeat full_slice (length shape - length pre - length post) ++ post)) shape its.
 Proof. exact norm_index_ellipsis. Qed.
 Print Assumptions ellipsis_expands_to_full_slices.
-Theorem too_few_indices_are_filled_from_the_right : forall (strict its : bool) (items : list item) (shape : list Z),
+Theorem too_few_indices_are_filled_from_the_right : forall (its : bool) (items : list item) (shape : list Z),
   existsb is_ell items = false -> (length items < length shape)%nat ->
-  norm_index strict (ETuple items) shape its =
-  norm_index strict (ETuple (items ++ repeat full_slice (length shape - length items))) shape its.
+  norm_index (ETuple items) shape its =
+  norm_index (ETuple (items ++ repeat full_slice (length shape - length items))) shape its.
 Proof. exact norm_index_too_few. Qed.
-Theorem getitem_ints_and_slices_axiswise : forall (strict : bool) (p : list (axis R)) (items : list item),
+Theorem getitem_ints_and_slices_axiswise : forall (p : list (axis R)) (items : list item),
   Forall valid p -> Forall2 int_ok items (shape_of p) ->
   Forall2 good_item p (map2 to_slice items (shape_of p)) ->
   empty_slice_check (map2 to_slice items (shape_of p)) (shape_of p) = false ->
-  getitem strict p (ETuple items) = Ok (map2 sub_item p (map2 to_slice items (shape_of p))) /\
+  getitem p (ETuple items) = Ok (map2 sub_item p (map2 to_slice items (shape_of p))) /\
   Forall valid (map2 sub_item p (map2 to_slice items (shape_of p))).
 Proof. exact getitem_ints_and_slices. Qed.
 Print Assumptions getitem_ints_and_slices_axiswise.
@@ -385,20 +385,20 @@ Print Assumptions getitem_ints_and_slices_axiswise.
    For every valid partition (any number of axes) the result is exactly the list of selected
    axes, unchanged ([pick sel 0 p] keeps axis i iff i is in sel); byaxis[i] is axis i (negative
    i from the end, IndexError outside [-ndim, ndim)); byaxis[[i1..ik]] stacks the axes in that order. *)
-Theorem byaxis_returns_the_selected_axes : forall (strict : bool) (p : list (axis R)) (sel : list Z),
-  Forall valid p -> byaxis_sel strict p sel = Ok (pick sel 0 p).
+Theorem byaxis_returns_the_selected_axes : forall (p : list (axis R)) (sel : list Z),
+  Forall valid p -> byaxis_sel p sel = Ok (pick sel 0 p).
 Proof. exact byaxis_sel_spec. Qed.
 Print Assumptions byaxis_returns_the_selected_axes.
-Theorem byaxis_int_is_that_axis : forall (strict : bool) (p : list (axis R)) (i : Z),
+Theorem byaxis_int_is_that_axis : forall (p : list (axis R)) (i : Z),
   Forall valid p -> (- zlen p <= i < zlen p)%Z ->
-  byaxis1 strict p (AxInt i) = Ok [nth (Z.to_nat (if (i <? 0)%Z then i + zlen p else i)) p (mkAxis 0 0 [])].
+  byaxis1 p (AxInt i) = Ok [nth (Z.to_nat (if (i <? 0)%Z then i + zlen p else i)) p (mkAxis 0 0 [])].
 Proof. exact byaxis_int_spec. Qed.
-Theorem byaxis_int_out_of_range_rejected : forall (strict : bool) (p : list (axis R)) (i : Z),
-  (i < - zlen p \/ zlen p <= i)%Z -> byaxis1 strict p (AxInt i) = IndexErr.
+Theorem byaxis_int_out_of_range_rejected : forall (p : list (axis R)) (i : Z),
+  (i < - zlen p \/ zlen p <= i)%Z -> byaxis1 p (AxInt i) = IndexErr.
 Proof. exact byaxis_int_out_of_range. Qed.
-Theorem byaxis_sequence_stacks_the_axes : forall (strict : bool) (p : list (axis R)) (l : list Z),
+Theorem byaxis_sequence_stacks_the_axes : forall (p : list (axis R)) (l : list Z),
   Forall valid p -> (forall i, In i l -> (- zlen p <= i < zlen p)%Z) ->
-  byaxis_seq strict p l = Ok (map (axis_at p) l).
+  byaxis_seq p l = Ok (map (axis_at p) l).
 Proof. exact byaxis_seq_spec. Qed.
 Print Assumptions byaxis_sequence_stacks_the_axes.
 
@@ -422,3 +422,62 @@ Theorem boundary_cell_fractions_are_the_contained_fractions : forall ax : axis R
   (l = 1 / 2 <-> nthR 0 (a_cs ax) = a_lo ax) /\ (r = 1 / 2 <-> nthR (n - 1) (a_cs ax) = a_hi ax).
 Proof. exact bdry_fracs_spec. Qed.
 Print Assumptions boundary_cell_fractions_are_the_contained_fractions.
+
+(* ------------------------------------------------------------------ *)
+(* T2. Index lists p[[i1..ik]] (first axis), any strictly increasing list of in-range
+   indices, gaps allowed: the result has exactly the selected grid points, its limits are the
+   left edge of the first and the right edge of the last selected cell, it is a valid
+   partition, and the other axes are untouched.  (For a list without gaps this is the slice
+   i1:ik+1; with gaps the cells are not the selected cells, see the _refuted theorem above.) *)
+Theorem getitem_index_list_partial : forall (ax : axis R) (p' : list (axis R)) (l : list Z),
+  valid ax -> Forall valid p' -> (1 <= length l)%nat -> zincr l ->
+  (forall i, In i l -> (0 <= i < zlen (a_cs ax))%Z) ->
+  getitem_list (ax :: p') l = Ok (list_ax ax l :: p') /\ valid (list_ax ax l) /\
+  length (a_cs (list_ax ax l)) = length l /\
+  forall j, (j < length l)%nat -> nthR j (a_cs (list_ax ax l)) = nthR (Z.to_nat (nth j l 0%Z)) (a_cs ax).
+Proof. exact getitem_list_spec. Qed.
+Print Assumptions getitem_index_list_partial.
+
+(* T2. Negative steps: whenever a slice a:b:k with k < 0 selects two or more grid points the
+   selected vector is decreasing, so no limits make it an acceptable axis (RectGrid raises
+   ValueError "not sorted") and the whole partition is rejected. *)
+Theorem negative_step_with_two_points_is_rejected :
+  forall (ax : axis R) (a b : option Z) (k s e k' : Z) (lo hi : R),
+  valid ax -> (k < 0)%Z -> slice_adjust (zlen (a_cs ax)) (a, b, Some k) = Some (s, e, k') ->
+  (2 <= range_len s e k')%Z ->
+  axis_ok (mkAxis lo hi (take_idx (a_cs ax) (zrange s e k'))) = false.
+Proof. exact neg_step_unsorted. Qed.
+Print Assumptions negative_step_with_two_points_is_rejected.
+Theorem one_bad_axis_rejects_the_partition : forall (p q : list (axis R)) (ax : axis R),
+  axis_ok ax = false -> mk_part (p ++ ax :: q) = ValueErr.
+Proof. exact mk_part_rejects. Qed.
+
+(* T2. squeeze(axis=i): axis i (negative i from the end) is dropped iff it has one grid point;
+   outside [-ndim, ndim) IndexError.  (Any carrier.) *)
+Theorem squeeze_one_axis : forall (T : Type) (p : list (axis T)) (i : Z) (d : axis T),
+  (- zlen p <= i < zlen p)%Z ->
+  let k := Z.to_nat (norm_pos (zlen p) i) in
+  squeeze p (AxInt i) = Ok (if nondegen (nth k p d) then p else firstn k p ++ skipn (S k) p).
+Proof. exact (@squeeze_int). Qed.
+Print Assumptions squeeze_one_axis.
+Theorem squeeze_axis_out_of_range : forall (T : Type) (p : list (axis T)) (i : Z),
+  (i < - zlen p \/ zlen p <= i)%Z -> squeeze p (AxInt i) = IndexErr.
+Proof. exact (@squeeze_int_out_of_range). Qed.
+
+(* T2. uniform_partition_fromgrid with explicit limits in some axes (dict arguments): given
+   limits are used as they are, missing ones are half a gap outside the outermost node; the
+   result is accepted iff the given limits enclose the grid; with one grid point a missing
+   limit is a ValueError. *)
+Theorem fromgrid_explicit_limits : forall (cs : list R) (omin omax : option R), (2 <= length cs)%nat ->
+  fromgrid_axis cs omin omax = Ok (mkAxis (fromgrid_lo cs omin) (fromgrid_hi cs omax) cs).
+Proof. exact fromgrid_axis_spec. Qed.
+Theorem fromgrid_explicit_limits_valid : forall (cs : list R) (omin omax : option R),
+  sincr cs -> (2 <= length cs)%nat ->
+  (forall v, omin = Some v -> v <= nthR 0 cs) ->
+  (forall v, omax = Some v -> nthR (length cs - 1) cs <= v) ->
+  valid (mkAxis (fromgrid_lo cs omin) (fromgrid_hi cs omax) cs).
+Proof. exact fromgrid_axis_valid. Qed.
+Print Assumptions fromgrid_explicit_limits_valid.
+Theorem fromgrid_single_point_needs_limits : forall (c : R) (omax : option R),
+  fromgrid_axis [c] None omax = ValueErr.
+Proof. exact fromgrid_axis_single. Qed.
